@@ -50,3 +50,75 @@ contract(
     compare=["result", "exc", "stream:buffer"],
     props=["C06", "C07", "C08"],
 )
+
+# ------------------------------------------------------------------ REAL / LREAL
+for _n in ("REAL", "LREAL"):
+    contract(
+        id=f"real.encode.{_n}", func=DT + "DataType.encode", call="cls.encode(value)", bind={"cls": [DT + _n]},
+        params={"value": P.oneof(P.float(), P.int(), P.bool(), P.const("None"), P.const("'1.0'"), P.any())},
+        ref=f"spec.cip_codec.encode_real('{_n}', value)", props=["C06", "C07", "C08"])
+    contract(
+        id=f"real.decode.{_n}", func=DT + "DataType.decode", call="cls.decode(buffer)", bind={"cls": [DT + _n]},
+        params={"buffer": P.oneof(P.bytes(), P.stream(P.bytes()), P.const("None"), P.any())},
+        ref=f"spec.cip_codec.decode_real('{_n}', buffer)", compare=["result", "exc", "stream:buffer"],
+        props=["C06", "C07", "C08"])
+
+# ------------------------------------------------------------------ DATE_AND_TIME
+contract(
+    id="date_and_time.encode", func=DT + "DATE_AND_TIME.encode", call="cls.encode(time, date)",
+    bind={"cls": [DT + "DATE_AND_TIME"]},
+    params={"time": P.oneof(P.int(), P.const("None"), P.any()), "date": P.oneof(P.int(), P.const("'x'"), P.any())},
+    ref="spec.cip_codec.encode_date_and_time(time, date)", props=["C06", "C07", "C08"])
+contract(
+    id="date_and_time.decode", func=DT + "DataType.decode", call="cls.decode(buffer)",
+    bind={"cls": [DT + "DATE_AND_TIME"]},
+    params={"buffer": P.oneof(P.bytes(), P.stream(P.bytes()), P.const("None"), P.any())},
+    ref="spec.cip_codec.decode_date_and_time(buffer)", compare=["result", "exc", "stream:buffer"],
+    props=["C06", "C07", "C08"])
+
+# ------------------------------------------------------------------ strings
+for _n, _maxcp in (("STRING", 0x10FFFF), ("SHORT_STRING", 0x10FFFF), ("LOGIX_STRING", 0x10FFFF), ("STRING2", 0xFFFF)):
+    contract(
+        id=f"string.encode.{_n}", func=DT + "DataType.encode", call="cls.encode(value)", bind={"cls": [DT + _n]},
+        params={"value": P.oneof(P.str(maxcp=_maxcp), P.const("None"), P.const("b'ab'"), P.const("5"), P.any())},
+        ref=f"spec.cip_codec.encode_string('{_n}', value)", props=["C06", "C07", "C08"])
+    contract(
+        id=f"string.decode.{_n}", func=DT + "DataType.decode", call="cls.decode(buffer)", bind={"cls": [DT + _n]},
+        params={"buffer": P.oneof(P.bytes(), P.stream(P.bytes()), P.const("None"), P.any())},
+        ref=f"spec.cip_codec.decode_string('{_n}', buffer)", compare=["result", "exc", "stream:buffer"],
+        props=["C06", "C07", "C08"],
+        bounded=("decoding arbitrary UTF-16 code units is outside the engine's string model" if _n == "STRING2" else None))
+    contract(
+        id=f"string.roundtrip.{_n}", func=DT + "DataType.decode", call="cls.decode(buffer)", bind={"cls": [DT + _n]},
+        params={"value": P.str(maxcp=min(_maxcp, 0xFFFF) if _n == "STRING2" else 0xFF), "rest": P.bytes()},
+        requires=[f"len(value) < {1 << (8 * {'STRING': 2, 'SHORT_STRING': 1, 'LOGIX_STRING': 4, 'STRING2': 2}[_n])}"],
+        setup=[f"buffer = io.BytesIO(spec.cip_codec.encode_string('{_n}', value) + rest)"],
+        ensures=["result == value", "buffer.read() == rest"],
+        props=["C06", "C07"])
+
+# ------------------------------------------------------------------ n_bytes
+for _k in (0, 1, 2, 6, -1):
+    contract(
+        id=f"nbytes.encode.{_k}", func=DT + "DataType.encode", call="typ.encode(value)",
+        bind={"typ": [f"{DT}n_bytes({_k})"]},
+        params={"value": P.oneof(P.bytes(), P.const("None"), P.const("'ab'"), P.const("5"), P.any())},
+        ref=f"spec.cip_codec.encode_nbytes({_k}, value)", props=["C06", "C07", "C08"])
+    contract(
+        id=f"nbytes.decode.{_k}", func=DT + "DataType.decode", call="typ.decode(buffer)",
+        bind={"typ": [f"{DT}n_bytes({_k})"]},
+        params={"buffer": P.oneof(P.bytes(), P.stream(P.bytes()), P.const("None"), P.any())},
+        ref=f"spec.cip_codec.decode_nbytes({_k}, buffer)", compare=["result", "exc", "stream:buffer"],
+        props=["C06", "C07", "C08"])
+
+# ------------------------------------------------------------------ bit strings
+for _n, _w in (("BYTE", 1), ("WORD", 2), ("DWORD", 4), ("LWORD", 8), ("ENGUNIT", 2)):
+    contract(
+        id=f"bits.encode.{_n}", func=DT + "DataType.encode", call="cls.encode(value)", bind={"cls": [DT + _n]},
+        params={"value": P.oneof(P.list(P.bool(), 8 * _w), P.list(P.int(), 8 * _w), P.list(P.bool(), 8 * _w - 1),
+                                 P.list(P.bool(), 8 * _w + 1), P.const("[]"), P.const("None"), P.const("5"), P.any())},
+        ref=f"spec.cip_codec.encode_bits('{_n}', value)", props=["C06", "C07", "C08"])
+    contract(
+        id=f"bits.decode.{_n}", func=DT + "DataType.decode", call="cls.decode(buffer)", bind={"cls": [DT + _n]},
+        params={"buffer": P.oneof(P.bytes(), P.stream(P.bytes()), P.const("None"), P.any())},
+        ref=f"spec.cip_codec.decode_bits('{_n}', buffer)", compare=["result", "exc", "stream:buffer"],
+        props=["C06", "C07", "C08"])
